@@ -12,10 +12,12 @@ namespace NanoVerif
 inductive CP where
   | solid (c : Nat) (a : Q)
   | lin (g : LinGrad) (l : Nat)
+  | rad (g : RadGrad) (l : Nat)
   | glyph (o : Nat) (child : CP)
   | transform (m : Aff) (child : CP)
   | layers (ps : List CP)
   | group (alpha : Q) (child : CP)
+  | ref (child : CP)                 -- PaintColrGlyph, with the referenced base glyph's paint resolved (paint graphs are acyclic)
 
 structure PixAlg (α : Type) where
   clear : α
@@ -24,6 +26,7 @@ structure PixAlg (α : Type) where
   inside : Nat → Pt → Bool
   solidPix : Nat → Q → α
   linePix : Nat → Q → α
+  radPix : Nat → (Q → Prop) → α   -- a radial colour line evaluated on the set of parameters whose circle passes through the point
 
 /-- paint a bottom-to-top list of pixel values -/
 def PixAlg.compL {α} (E : PixAlg α) (acc : α) : List α → α
@@ -36,10 +39,12 @@ mutual
 def colrRender {α} (E : PixAlg α) : CP → Pt → α
   | .solid c a, _ => E.solidPix c a
   | .lin g l, x => E.linePix l (linParam g x)
+  | .rad g l, x => E.radPix l (g.sol x)
   | .glyph o p, x => if E.inside o x then colrRender E p x else E.clear
   | .transform m p, x => colrRender E p ((m.inverseEps eps).app x)
   | .layers ps, x => E.comp (colrRenderList E ps x)
   | .group a p, x => E.fade a (colrRender E p x)
+  | .ref p, x => colrRender E p x
 def colrRenderList {α} (E : PixAlg α) : List CP → Pt → List α
   | [], _ => []
   | p :: ps, x => colrRender E p x :: colrRenderList E ps x
@@ -48,10 +53,12 @@ end
 inductive SFill where
   | solid (c : Nat) (a : Q)
   | lin (g : LinGrad) (l : Nat)        -- userSpaceOnUse, in the element's own user space
+  | rad (g : RadGrad) (gt : Aff) (l : Nat)   -- circles in gradient space, `gradientTransform = gt`
 
 inductive SV where
   | path (o : Nat) (tr : Aff) (fill : SFill)   -- `d` = outline `o` mapped by V; `transform` attribute `tr`
   | g (opacity : Q) (kids : List SV)
+  | gt (tr : Aff) (kids : List SV)             -- `<g transform="…">` around a referenced colour glyph
 
 mutual
 /-- SVG: what the element shows at viewBox point `y` (`V` = font → viewBox) -/
@@ -61,9 +68,11 @@ def svgRender {α} (E : PixAlg α) (V : Aff) : SV → Pt → α
     if E.inside o ((V.inverseEps eps).app z) then
       (match f with
        | .solid c a => E.solidPix c a
-       | .lin g l => E.linePix l (linParam g z))
+       | .lin g l => E.linePix l (linParam g z)
+       | .rad g gt l => E.radPix l (g.sol ((gt.inverseEps eps).app z)))
     else E.clear
   | .g a kids, y => E.fade a (E.comp (svgRenderList E V kids y))
+  | .gt tr kids, y => E.comp (svgRenderList E V kids ((tr.inverseEps eps).app y))
 def svgRenderList {α} (E : PixAlg α) (V : Aff) : List SV → Pt → List α
   | [], _ => []
   | s :: ss, y => svgRender E V s y :: svgRenderList E V ss y
@@ -73,27 +82,35 @@ end
 def pathTr (V acc : Aff) : Aff :=
   if acc = Aff.id then Aff.id else Aff.composeLtr [V.inverseEps eps, acc, V]
 
-/-- the fill below a PaintGlyph: transforms accumulate, a gradient's points are mapped by
-`compose_ltr((transform, font_to_vbox))` -/
-def fillOf (V : Aff) : Aff → CP → Option SFill
+/-- `_decompose_uniform_transform` as seen from the walk: the combined transform is split into a similarity (applied to the circles)
+and a remainder (written as `gradientTransform`).  The split uses `hypot`, which is irrational: the theorems quantify over every
+split satisfying `DecOK` (Proofs/ColrSvg.lean); the arithmetic after the two scale factors is `decomposeUniform` (Model/Decompose.lean). -/
+abbrev Dec := Aff → Aff × Aff
+
+/-- the fill below a PaintGlyph: transforms accumulate, a linear gradient's points are mapped by
+`compose_ltr((transform, font_to_vbox))`; for a radial gradient that transform is split (`_apply_gradient_ot_paint`) -/
+def fillOf (V : Aff) (dec : Dec) : Aff → CP → Option SFill
   | _, .solid c a => some (.solid c a)
   | t, .lin g l => some (.lin (g.applyTransform (Aff.composeLtr [t, V])) l)
-  | t, .transform m c => fillOf V (t.mul m) c
+  | t, .rad g l => some (.rad (g.applyUniform (dec (Aff.composeLtr [t, V])).1) (dec (Aff.composeLtr [t, V])).2 l)
+  | t, .transform m c => fillOf V dec (t.mul m) c
   | _, _ => none
 
 mutual
 /-- the elements `_colr_v1_paint_to_svg` appends, in document order -/
-def toSvg (V : Aff) : Aff → CP → List SV
-  | acc, .glyph o c => match fillOf V Aff.id c with
+def toSvg (V : Aff) (dec : Dec) : Aff → CP → List SV
+  | acc, .glyph o c => match fillOf V dec Aff.id c with
     | some f => [.path o (pathTr V acc) f]
     | none => []
-  | acc, .transform m c => toSvg V (acc.mul m) c
-  | acc, .layers ps => toSvgList V acc ps
-  | acc, .group a c => [.g a (toSvg V acc c)]
+  | acc, .transform m c => toSvg V dec (acc.mul m) c
+  | acc, .layers ps => toSvgList V dec acc ps
+  | acc, .group a c => [.g a (toSvg V dec acc c)]
+  -- PaintColrGlyph: the accumulated transform goes on a wrapping <g> ONCE, the referenced paint starts from the identity again
+  | acc, .ref c => if acc = Aff.id then toSvg V dec Aff.id c else [.gt (pathTr V acc) (toSvg V dec Aff.id c)]
   | _, _ => []
-def toSvgList (V : Aff) : Aff → List CP → List SV
+def toSvgList (V : Aff) (dec : Dec) : Aff → List CP → List SV
   | _, [] => []
-  | acc, p :: ps => toSvg V acc p ++ toSvgList V acc ps
+  | acc, p :: ps => toSvg V dec acc p ++ toSvgList V dec acc ps
 end
 
 /-- `svg._apply_paint` (svg.py:370), the other direction (nanoemoji Paint → OT-SVG fill): transform paints
